@@ -137,21 +137,30 @@ Proof.
 Qed.
 
 (* the main statement: whatever parse_ref returns denotes a valid name *)
-Theorem parsed_denotes m pos lim p : parse_ref m pos lim = Ok p -> lim <= mlen m -> wf_bytes m ->
-  exists n, valid_abs n /\ pname_labels m p = Ok (n, true) /\ denotes (NParsed m p) (n ++ [[]]).
+Lemma parsed_inv m pos lim p : parse_ref m pos lim = Ok p -> lim <= mlen m -> wf_bytes m ->
+  exists n, valid_abs n /\ pname_labels m p = Ok (n, true) /\
+    plabels m (pn_pos p) (pn_len p) (n ++ [[]]) /\ flat_ok m p (n ++ [[]]).
 Proof.
   intros H Hl Hw.
   destruct (parse_ref_walk m pos lim p H Hl) as [n [Hwalk [Hlen H255]]].
   assert (Hv : Forall valid_label n) by (eapply walk_valid; eauto).
   assert (Hp : pname_labels m p = Ok (n, true)) by (apply pname_labels_walk; assumption).
-  exists n. split; [split; [exact Hv|lia]|]. split; [exact Hp|].
-  apply denotes_parsed_pname; [exact Hp|].
-  intros Hc. destruct (parse_ref_flat_at m pos lim p Hl H Hc) as [ls Hf].
-  assert (n = ls) by (eapply flat_at_walk; eauto). subst ls.
-  destruct (flat_at_slice _ _ _ Hf) as [Hr Hs].
-  rewrite wire_labels_abs. rewrite Hlen.
-  replace (pn_pos p + (N.of_nat (wire_len n) + 1)) with (pn_pos p + N.of_nat (wire_len n) + 1) by lia.
-  split; assumption.
+  exists n. split; [split; [exact Hv|lia]|]. split; [exact Hp|]. split.
+  - pose proof Hp as Hq. rewrite pname_labels_unfold in Hq. apply iter_labels_plabels in Hq.
+    destruct Hq as [ls [Hls Hpl]]. cbn [rev app] in Hls. subst ls. exact Hpl.
+  - intros Hc. destruct (parse_ref_flat_at m pos lim p Hl H Hc) as [ls Hf].
+    assert (n = ls) by (eapply flat_at_walk; eauto). subst ls.
+    destruct (flat_at_slice _ _ _ Hf) as [Hr Hs].
+    rewrite wire_labels_abs. rewrite Hlen.
+    replace (pn_pos p + (N.of_nat (wire_len n) + 1)) with (pn_pos p + N.of_nat (wire_len n) + 1) by lia.
+    split; assumption.
+Qed.
+
+Theorem parsed_denotes m pos lim p : parse_ref m pos lim = Ok p -> lim <= mlen m -> wf_bytes m ->
+  exists n, valid_abs n /\ pname_labels m p = Ok (n, true) /\ denotes (NParsed m p) (n ++ [[]]).
+Proof.
+  intros H Hl Hw. destruct (parsed_inv m pos lim p H Hl Hw) as [n [Vn [Hp [Hpl Hf]]]].
+  exists n. split; [exact Vn|]. split; [exact Hp|]. apply denotes_parsed; assumption.
 Qed.
 
 (* representation independence without premises about the decoder: two names
